@@ -78,7 +78,8 @@ KUNITS['K-LAYOUT'] = [H('encoder::verif_hooks::kani_enc::create_symbols_layout_%
 KUNITS['K-GF2'] = [H('gf2::verif_hooks::kani_gf2::add_assign_binary_is_wordwise_xor', False, bound='dest of 0, 1, 2, 5, 6 words inside an 8-word buffer, symbolic contents', functions=['src/gf2.rs add_assign_binary']),
                    H('gf2::verif_hooks::kani_gf2::add_assign_binary_reads_only_len_words', False, bound='dest 3 words, src 6 words'),
                    H('gf2::verif_hooks::kani_gf2::add_assign_binary_refuses_short_src', False, bound='dest 4 words, src 3 words', refusal=True, covers=False),
-                   H('gf2::verif_hooks::kani_gf2::get_both_ranges_are_the_two_disjoint_windows', False, bound='vector of 8 words; i, j, len symbolic (all disjoint in-range window pairs)', functions=['src/util.rs get_both_ranges'])]
+                   H('gf2::verif_hooks::kani_gf2::get_both_ranges_are_the_two_disjoint_windows', False, bound='vector of 8 words; i, j, len symbolic (all disjoint in-range window pairs)', functions=['src/util.rs get_both_ranges']),
+                   H('gf2::verif_hooks::kani_gf2::get_both_indices_are_elements_i_and_j', False, bound='vector of 8 words; i, j symbolic and distinct', functions=['src/util.rs get_both_indices'])]
 # Verus gives no counterexample: these Kani harnesses of the same contract are run only after a Verus obligation failed
 WITNESS = {
     'V-RNG': [H('rng::verif_hooks::kani_rng::rand_xor_value_matches_rfc', True, timeout='10m')],
@@ -210,7 +211,7 @@ PROPS = {
                     'resize (shrinking keeps every remaining cell), query_non_zero_columns{,_into}, get_ones_in_column{,_into} (exactly the set cells, increasing; the allocating wrappers proved against the _into contracts), count_ones == number of set cells in the column range (V-DCOUNT: mask and popcount lemmas), get_sub_row_as_octets == the cells right-aligned in u64 words with zero padding on the left (V-DSUBROW); every postcondition speaks about the whole matrix (frame); '
                     'word/bit addressing by non-linear lemmas, single-bit updates by bit_vector lemmas. SPARSE matrix: the sparse row SparseBinaryVec (get/insert/remove against its key set, keys strictly increasing, and add_assign -- the two-iterator merge -- == symmetric difference of the key sets, with its `column added` result: V-SPVEC); new (all zero, identity maps), get, set, swap_rows, swap_columns, get_sub_row_as_octets, count_ones (== number of set cells in the range, by a bijection argument over the column permutation), add_assign_rows (row xor: dense tail always, sparse part when start_col == 0, every other row untouched) against the same abstract cell(i, j) for all shapes, every logical/physical row and column permutation and every dense-tail width (V-SPMAT: the same two-method contract new/set that V-AMAT relies on, so the constraint matrix built into a sparse matrix reads back cell by cell like the dense one); the right-aligned dense tail: addressing helpers and hint_column_dense_and_frozen '
                     '(freezing a column keeps every already frozen column, one position further right, also across a word-per-row boundary where the words are re-spaced; unused left bits stay zero).',
-        assumptions=['util::get_both_ranges external in V-DENSE (contract: two disjoint mutable sub-slices, first at i, second at j), checked BOUNDED by K-GF2 (Kani, vector of 8 words, i/j/len symbolic) and otherwise assumed; gf2::add_assign_binary external in V-DENSE, its element-wise xor contract checked BOUNDED by K-GF2 (Kani, dest of 0..6 words)', 'assume_specification for usize::div_ceil and <[T]>::swap', 'Octet equality is structural', 'rule S5 (binary_search on a strictly increasing slice), S6 (v[i].insert(..) through IndexMut; get_both_indices + add_assign as one model call carrying the contract V-SPVEC proves), S7 (unwrap_or_else), X1 (slice iterator as cursor), X2 (match on cmp as if-chain) model/desugaring rules'],
+        assumptions=['util::get_both_ranges external in V-DENSE (contract: two disjoint mutable sub-slices, first at i, second at j), checked BOUNDED by K-GF2 (Kani, vector of 8 words, i/j/len symbolic) and otherwise assumed; util::get_both_indices (rule S6 models it as element i, element j in that order) likewise checked BOUNDED by K-GF2 (8 words, i/j symbolic); gf2::add_assign_binary external in V-DENSE, its element-wise xor contract checked BOUNDED by K-GF2 (Kani, dest of 0..6 words)', 'assume_specification for usize::div_ceil and <[T]>::swap', 'Octet equality is structural', 'rule S5 (binary_search on a strictly increasing slice), S6 (v[i].insert(..) through IndexMut; get_both_indices + add_assign as one model call carrying the contract V-SPVEC proves), S7 (unwrap_or_else), X1 (slice iterator as cursor), X2 (match on cmp as if-chain) model/desugaring rules'],
         not_decided=['SparseBinaryMatrix::resize, the row/column queries and the column index (ImmutableListMap) are NOT under contract; '
                      'a bounded Kani comparison against the dense matrix (K-SPARSE in /verif/hooks/lib_hooks.rs) did not finish within 30 min even with 3 symbolic cells and is not run',
                      'DenseBinaryMatrix::get_row_iter (+ OctetIter); count_ones is proved for start_col < width (count_ones(row, width, width) on the last row of a matrix whose width is a multiple of 64 indexes one word past the end: excluded by precondition, no caller does it)', 'therefore the equivalence of the two implementations is decided for construction-time set/get, the swaps and column freezing; not for shrinking and the queries of the sparse matrix']),
